@@ -207,6 +207,15 @@ func (e *Engine) lookupFunc(pkgPath, desig string) *ssa.Function {
 	if p == nil {
 		return nil
 	}
+	// F$k: the k-th function literal of F (ssa naming), e.g. WithBannedDirectives$1
+	if i := strings.LastIndex(desig, "$"); i > 0 {
+		parent := e.lookupFunc(pkgPath, desig[:i])
+		var k int
+		if _, err := fmt.Sscanf(desig[i+1:], "%d", &k); err != nil || parent == nil || k < 1 || k > len(parent.AnonFuncs) {
+			return nil
+		}
+		return parent.AnonFuncs[k-1]
+	}
 	if !strings.Contains(desig, ".") {
 		return p.Func(desig)
 	}
